@@ -14,7 +14,7 @@ import hashlib
 import random
 from typing import Any, Dict, List, Optional, Tuple
 
-from gen.grammars import make_grammar
+from gen.grammars import grammar_features, make_grammar
 from oracles import grammar as og
 from oracles.grammar import MNode, is_closed, is_nt, iter_nodes, to_model, tree_yield, validate_tree
 from sim.seams import EventLog, SimBudgetExceeded, SimRandom, WorkCounter, install_prng
@@ -313,6 +313,7 @@ def execute(plan: Dict[str, Any]) -> Dict[str, Any]:
                         v = None
                     elif v is not None:
                         v["op_index"] = idx
+                        v["features"] = grammar_features(grammars[gi])
                         v.setdefault("signature", {"type": "Oracle", "site": v["clause"], "message": "", "raw": ""})
                         record["violations"].append(v)
                 except SimBudgetExceeded:
@@ -327,6 +328,7 @@ def execute(plan: Dict[str, Any]) -> Dict[str, Any]:
                         prop = "C12" if case["kind"] in ("expand_plain", "expand_cov", "mutate") else "C14"
                         record["violations"].append(
                             {"property": prop, "clause": f"{case['kind']}_raises", "op_index": idx, "case": case, "signature": sig,
+                             "features": grammar_features(grammars[case.get("g", 0) % len(grammars)]),
                              "detail": f"{case['kind']} raised {sig['type']} at {sig['site']}: {sig['raw']}"}
                         )
                 finally:
